@@ -144,11 +144,12 @@ namespace AIToolbox::POMDP {
 
         for ( size_t a = 0; a < A; ++a )
             for ( size_t s = 0; s < S1; ++s ) {
-                R(s, a) /= T[a].row(s).sum();
-
                 const double sum = T[a].row(s).sum();
                 if ( checkEqualSmall(sum, 0.0) ) T[a](s, s) = 1.0;
-                else T[a].row(s) /= sum;
+                else {
+                    R(s, a) /= sum;
+                    T[a].row(s) /= sum;
+                }
             }
 
         return std::make_tuple(MDP::Model(NO_CHECK, S1, A, std::move(T), std::move(R), model.getDiscount()), std::move(discretizer));
